@@ -112,7 +112,7 @@ def enumerate_sites(F, tree):
     return sites
 
 
-def assoc_partitions(F, an):
+def assoc_partitions(F, an, rows=True):
     """Distinct bindings of the hash trait's associated constants over the local impls
     (finite trace partitioning: one IA pass per binding instead of the hull)."""
     by_impl = {}
@@ -125,6 +125,8 @@ def assoc_partitions(F, an):
         if b not in parts:
             parts.append(b)
     parts = parts or [{}]
+    if not rows:
+        return parts
     # refine by LM-OTS parameter row (w, p, ls, type) per hash size: relations such as
     # floor((p-1)*w/8) <= n+1 become provable without a relational domain
     try:
@@ -169,12 +171,12 @@ def slice_fields(F):
     return out
 
 
-def discharge_with_ia(F, an, entries, sites, tree=None):
+def discharge_with_ia(F, an, entries, sites, tree=None, partitions=True):
     """One IA pass per assoc-const binding; a site is discharged only if it is in every pass."""
     from .paramtable import bind_assoc
 
     per_site = {id(s): [] for s in sites}
-    for binding in assoc_partitions(F, an):
+    for binding in (assoc_partitions(F, an, rows=(partitions is True)) if partitions else [{}]):
         with bind_assoc(an, binding):
             an.sites = {}
             an._reached = {}
@@ -583,12 +585,12 @@ def apply_obligations(F, A, an, sites):
     return R, used
 
 
-def run(chk, F, A, entries, label, allow_recursion=(), tag=""):
+def run(chk, F, A, entries, label, allow_recursion=(), tag="", partitions=True):
     """Full PF pass for one configuration and entry set; records obligations / violations on chk."""
     an = ia.Analyzer(F)
     tree = F.reachable(entries)
     sites = enumerate_sites(F, tree)
-    discharge_with_ia(F, an, entries, sites, tree)
+    discharge_with_ia(F, an, entries, sites, tree, partitions)
     capacity_budget(F, an, sites)
     accumulator_budget(F, an, sites)
     R, used = apply_obligations(F, A, an, sites)
